@@ -2,6 +2,7 @@
 The generator keeps a *belief* about the registry (what it pushed where) only to make
 most requests meaningful; nothing depends on the belief being right: whatever it
 emits is sent verbatim to both the implementation and the model."""
+import base64
 import json
 
 from api import *
@@ -268,6 +269,10 @@ class World:
                 extra = {}
                 if rng.random() < 0.4:
                     extra["platform"] = {"architecture": rng.choice(["amd64", "arm64"]), "os": "linux"}
+                if rng.random() < 0.3:
+                    # annotations of a child descriptor belong to the index that lists it: a name there is not a tag of the repository
+                    extra["annotations"] = rng.choice([{"org.opencontainers.image.ref.name": rng.choice(TAGS)}, {"note": "child"},
+                                                       {"org.opencontainers.image.ref.name": rng.choice(TAGS[:3]), "k": "v"}])
                 kids.append(desc(mt, b, **extra))
         if missing:
             kids.append(desc(MT_OCI_M, b"missing-child-%d" % rng.randrange(5)))
@@ -524,7 +529,15 @@ class World:
                 return
         kids = rng.sample(imgs, min(len(imgs), rng.randrange(1, 3)))
         imt = rng.choice([MT_OCI_I, MT_DOCK_I])
-        body = index_manifest([desc(mt, b) for b, mt in kids], media_type=imt, annotations={"neg": str(len(self.steps))} if imt == MT_OCI_I else None)
+        # (a descriptor may embed the content it names - `data` - or something else: what is served is the stored manifest)
+        def kid_desc(b, mt):
+            r = rng.random()
+            if r < 0.25:
+                return dict(desc(mt, b), data=base64.b64encode(b'{"schemaVersion":2,"embedded":"not the child"}').decode())
+            if r < 0.4:
+                return dict(desc(mt, b), data=base64.b64encode(b).decode())
+            return desc(mt, b)
+        body = index_manifest([kid_desc(b, mt) for b, mt in kids], media_type=imt, annotations={"neg": str(len(self.steps))} if imt == MT_OCI_I else None)
         self.contents.add(body)
         tag = rng.choice(TAGS[:3])
         self.add(manifest_put(repo, tag, body, ctype=imt))
@@ -561,6 +574,42 @@ class World:
         self.add(manifest_get(repo, d, head=True))
         if (body, mt) not in self.manifests[repo]:
             self.manifests[repo].append((body, mt))
+
+    def incomplete_known(self):
+        """a manifest whose bytes are in the repository already but whose references are not all there: its bytes uploaded through
+        the blob API with a layer that never was, or a complete image one of whose layers is deleted before it is pushed again"""
+        rng = self.rng
+        repo = self.repo()
+        cfg = b"{}"
+        self.ensure_blob(repo, cfg)
+        ref = rng.choice(TAGS[:4])
+        if rng.random() < 0.5:
+            gone = b"never-uploaded-%d" % len(self.steps)
+            body = image_manifest(desc(MT_CFG, cfg), [desc(MT_LAYER, gone)], annotations={"inc": str(len(self.steps))})
+            self.contents.add(body)
+            self.add(upload_post(repo, digest=dg("sha256", body), body=body))
+            if rng.random() < 0.3:
+                ref = dg("sha256", body)
+        else:
+            layer = b"layer-to-go-%d" % len(self.steps)
+            self.contents.add(layer)
+            self.ensure_blob(repo, layer)
+            body = image_manifest(desc(MT_CFG, cfg), [desc(MT_LAYER, layer)], annotations={"inc": str(len(self.steps))})
+            self.contents.add(body)
+            first = rng.choice(TAGS[4:7])
+            self.add(manifest_put(repo, first, body, ctype=MT_OCI_M))
+            self.manifests[repo].append((body, MT_OCI_M))
+            self.tags[repo].add(first)
+            self.add(blob_delete(repo, dg("sha256", layer)))
+            if layer in self.blobs[repo]:
+                self.blobs[repo].remove(layer)
+        gid = len(self.steps)
+        self.probe_repo(repo, ("pre", gid))
+        k = self.add(manifest_put(repo, ref, body, ctype=MT_OCI_M))
+        self.steps[k]["probed"] = gid
+        self.probe_repo(repo, ("post", gid))
+        self.refcheck(repo, body, k)
+        self.add(manifest_get(repo, ref))
 
     def delete_blob(self):
         rng = self.rng
@@ -698,7 +747,8 @@ class World:
                        artifact=p["artifact"], mread=p["mread"], bread=p["bread"], tags=p["tags"], refs=p["refs"],
                        mdel=p["mdel"], bdel=p["bdel"], sess=p["sess"], retag=p.get("retag", 0.3 if p["image"] > 0 else 0),
                        repush=p.get("repush", 0.4 if p["image"] > 0 else 0),
-                       negotiate=p.get("negotiate", 0.4 if p["index"] > 0 and p["mread"] > 0 else 0))
+                       negotiate=p.get("negotiate", 0.4 if p["index"] > 0 and p["mread"] > 0 else 0),
+                       incomplete=p.get("incomplete", 0.3 if p["image"] > 0 and p.get("bad", 0) > 0 else 0))
         while len(self.steps) < nsteps:
             k = pick(self.rng, weights)
             if k == "blob":
@@ -728,6 +778,8 @@ class World:
                 self.repush()
             elif k == "negotiate":
                 self.negotiate()
+            elif k == "incomplete":
+                self.incomplete_known()
             elif k == "sess":
                 if self.rng.random() < self.profile.get("interrupt", 0.15):
                     self.interrupted_upload()
